@@ -457,3 +457,31 @@ field {field_name} of type {field_type} produced an invalid value when resolving
         _ => unreachable!("unsupported 'operation': {:?}", operation,),
     }
 }
+
+/// Verification-only entry point (feature `trustfall_verif`): the candidate computed for one
+/// context whose tag has the given value (`None` = the tag's optional scope does not exist).
+#[cfg(feature = "trustfall_verif")]
+pub fn verif_candidate_from_operation(
+    operation: &Operation<(), ()>,
+    initial_candidate: CandidateValue<FieldValue>,
+    tag_value: Option<FieldValue>,
+) -> CandidateValue<FieldValue> {
+    let ctx: crate::interpreter::DataContext<()> = crate::interpreter::DataContext::new(None);
+    let tagged_value = match tag_value {
+        Some(v) => TaggedValue::Some(v),
+        None => TaggedValue::NonexistentOptional,
+    };
+    let iterator: ContextOutcomeIterator<'static, (), TaggedValue> =
+        Box::new(std::iter::once((ctx, tagged_value)));
+    let mut output = compute_candidate_from_operation(
+        operation,
+        initial_candidate,
+        "p".into(),
+        Type::new_named_type("T", true),
+        iterator,
+    );
+    let (ctx, candidate) = output.next().expect("one element");
+    std::mem::forget(ctx);
+    std::mem::forget(output);
+    candidate
+}
